@@ -243,6 +243,17 @@ struct transition_table_impl
             auto& source = sm.template get_state<current_state_type>();
             auto& target = sm.template get_state<next_state_type>();
 
+            if constexpr (has_exit_pseudostate_be_tag<typename Row::Source>::value)
+            {
+                // A transition leaving an exit point is the second part of a
+                // compound transition: it can only be taken while that exit
+                // point is the active state of its owner.
+                if (!source.template is_state_active<typename Row::Source>())
+                {
+                    return process_result::HANDLED_FALSE;
+                }
+            }
+
             if (!call_guard_or_true<Row, HasGuard>(sm, event, source, target))
             {
                 // guard rejected the event, we stay in the current one
